@@ -142,6 +142,9 @@ def run_history(case):
     Q = zoo.rot2(0.6) if d == 2 else zoo.generic_rotations(seed, 1)[0]
     changes = [("affine", lambda P: P @ A.T + 0.1), ("rotate", lambda P: P @ Q.T), ("translate", lambda P: P + 0.35)]
     refresh = ["reload()", "reload(mesh)", "copy()", "copy(mesh)", "update(callback=reload)", "reload(hess=True)", "points[:]=;reload()"]
+    if hasattr(zoo.region(kind, base).quadrature, "inv"):
+        # (another user of the region's element object in between: tools.extrapolate builds a helper region on it)
+        refresh += ["extrapolate;reload(mesh)", "extrapolate;copy()"]
 
     def fresh(mesh, hess):
         return zoo.region(kind, fem.Mesh(mesh.points.copy(), mesh.cells.copy(), mesh.cell_type), **(dict(hess=True) if hess else {}))
@@ -155,6 +158,9 @@ def run_history(case):
             lab.append(f"{cn}+{rf}")
             newp = cf(mesh.points)
             hess = False
+            if rf.startswith("extrapolate;"):
+                fem.tools.extrapolate(np.ones((2,) + region.dV.shape), region)
+                rf = rf.split(";")[1]
             if rf == "update(callback=reload)":
                 mesh.update(points=newp, callback=region.reload)
                 got = region
